@@ -4,7 +4,7 @@ factories) resolved by clang; every rule reports file:line of the construct it j
 import os
 
 from .facts import (AnalysisBroken, walk_expr, walk_all_exprs, walk_stmts, show, strip_casts, strip_copies,
-                    member_path, stmt_children, Facts)
+                    member_path, stmt_children, Facts, strip_conv)
 from .genrules import GenModel, callers_of, field_chain, is_call, direct_exprs, guarded, guard_implies
 from .cfg import CFG
 
@@ -58,14 +58,31 @@ class Prov:
                 return {'LABEL'}
             if c.endswith('::operator[]') and e.get('obj') is not None:
                 o = strip_casts(e['obj'])
-                octy = (o.get('cty') or '')
+                octy = (o.get('cty') or '').replace('const ', '')
                 if octy.startswith('std::vector<int'):
                     return self.container(f, o, seen)
                 root, path = member_path(o)
                 if path[-1:] == ['marks']:
                     return {'LABEL'}
+            if c.endswith('::operator*') or c.endswith('::operator->'):
+                pass
+            # a helper defined in gen.cpp: the provenance of what it returns
+            tg = self.m.by_q.get(c, [])
+            key = ('ret', c)
+            if len(tg) == 1 and key not in seen:
+                g2 = tg[0]
+                rets = [st for st in walk_stmts(g2['body']) if st['k'] == 'return' and st.get('e') is not None]
+                if rets:
+                    res = set()
+                    for r in rets:
+                        res |= self.of(g2, r['e'], seen | {key})
+                    return res
             return {'UNKNOWN:' + show(e)}
         if k == 'member' and e.get('mk') == 'field':
+            root, path = member_path(e)
+            # it->second of a lookup in the mark table / a (key,value) entry of it
+            if path[-1:] == ['second'] and root is not None and self.mentions_field(f, root, 'marks'):
+                return {'LABEL'}
             return {('FIELD', show(e))}
         if k == 'ref':
             key = (f['sig'], e.get('d'), e.get('name'))
@@ -103,6 +120,20 @@ class Prov:
                         res |= self.of(f, rhs, seen)
                 return res
         return {'UNKNOWN:' + show(e)}
+
+    def mentions_field(self, f, e, field, depth=0):
+        """the value of e is derived from the member `field` (looking through locals and their definitions)"""
+        if e is None or depth > 4:
+            return False
+        for x in walk_expr(e):
+            if x.get('k') == 'member' and x.get('mk') == 'field' and x['name'] == field:
+                return True
+            if x.get('k') == 'ref' and x.get('dk') == 'var':
+                ds = self.m.defs(f).get(x['d'], [])
+                if ds and all(d[1] is not None and d[1] is not e and self.mentions_field(f, d[1], field, depth + 1) for d in ds if d[0] in ('init', 'assign')):
+                    if any(d[0] in ('init', 'assign') for d in ds):
+                        return True
+        return False
 
     def loop_bound(self, f, ref):
         """for (i = 0; i < v.size(); i++): returns did of v"""
@@ -509,6 +540,8 @@ def c03(rep, tier):
                 inst = '%s: %s' % (f['q'], show(e))
                 if not parent_ok:
                     G.violation(inst, 'jump emitted without registering it for backpatching: its operand stays a label number', W(m, f, e))
+                elif any(isinstance(x, str) and x.startswith('UNKNOWN') for x in pv):
+                    G.unknown(inst, 'cannot determine where the jump operand %s comes from (%s)' % (show(e['args'][0]), sorted(map(str, pv))[0]), W(m, f, e))
                 elif pv != {'LABEL'}:
                     G.violation(inst, 'jump operand %s is not a label (provenance %s)' % (show(e['args'][0]), sorted(map(str, pv))), W(m, f, e))
                 else:
@@ -535,7 +568,11 @@ def c03(rep, tier):
     sets = gm.calls_to('GenState::setLabel')
     ok = len(sets) == 1 and gm.on_all_paths(sets[0]) and prov.of(dm, sets[0].e['args'][0]) == {'LABEL'} and \
         (is_call(strip_casts(sets[0].e['args'][1]), 'GenState::getMarkPos') or is_call(strip_casts(sets[0].e['args'][1]), 'GenState::getNextPos'))
-    G.check(ok, 'dispatchMark: setLabel', 'the mark\'s label is set at the current position on every path', 'mark label not set', W(m, dm))
+    if not ok and len(sets) == 1 and any(isinstance(x, str) and x.startswith('UNKNOWN') for x in prov.of(dm, sets[0].e['args'][0])):
+        G.unknown('dispatchMark: setLabel', 'cannot determine where the label %s comes from' % show(sets[0].e['args'][0]), W(m, dm))
+        ok = None
+    if ok is not None:
+      G.check(ok, 'dispatchMark: setLabel', 'the mark\'s label is set at the current position on every path', 'mark label not set', W(m, dm))
     # marks[...] reads are preceded by the find/create idiom; marks only ever receive createLabel()
     for f in m.all_fns():
         gg = None
@@ -585,8 +622,11 @@ def c03(rep, tier):
                             okk = labm[-1:] == ['offset'] and labm[-2] == member and member == {'JMP': 'jmp', 'JMPC': 'jmpc'}.get(opn)
                 kinds[opn] = okk
     for opn in ('JMP', 'JMPC'):
-        G.check(kinds.get(opn) is True, 'backpatch: %s' % opn, 'offset := labels[old operand] - position, through the member of that opcode',
-                'backpatching of %s not recognised / uses the wrong union member' % opn, W(m, bpf))
+        if opn not in kinds:
+            G.unknown('backpatch: %s' % opn, 'the rewriting of %s offsets has a shape that is not recognised' % opn, W(m, bpf))
+        else:
+            G.check(kinds.get(opn) is True, 'backpatch: %s' % opn, 'offset := labels[old operand] - position, through the member of that opcode',
+                    'backpatching of %s uses the wrong union member or formula' % opn, W(m, bpf))
 
     # ---------------------------------------------------------------- h, i: VM side
     from .vmfx import VMModel
@@ -858,30 +898,56 @@ def c08(rep, tier):
                 oo = m.origin(f, o)
                 if tname == 'potential_breaks' or table_of(oo)[0] == 'potential_breaks':
                     pb_elem.append(ev)
+        for ev in gg.calls():
+            e = ev.e
+            # std::erase(sites, pos) / std::erase_if / std::remove on the site list of one location
+            if e.get('obj') is None and (e.get('callee') or '') in ('std::erase', 'std::erase_if') and e['args']:
+                a0 = strip_casts(e['args'][0])
+                oo = m.origin(f, a0)
+                if table_of(a0)[0] == 'potential_breaks' or table_of(oo)[0] == 'potential_breaks':
+                    pb_elem.append(ev)
         inst = '%s: pop of a breakpoint instruction' % f['q']
         why = []
         if len(li_er) != 1:
             why.append('%d erase(s) on line_info' % len(li_er))
+        cannot = None
         if not pb_elem:
-            if pb_map_er:
+            unguarded0 = []
+            for ev0 in pb_map_er:
+                if not any(label is True and (is_call(strip_casts(cond), '::empty') or 'size()' in show(cond)) for cond, label, cn in gg.guards_of(ev0)):
+                    unguarded0.append(ev0)
+            if unguarded0:
                 why.append('the whole location is erased from potential_breaks (%s): other sites of the same line are lost while '
-                           'line_info still reports them' % show(pb_map_er[0].e)[:70])
+                           'line_info still reports them' % show(unguarded0[0].e)[:70])
+            elif pb_map_er:
+                cannot = 'the location is erased only when its list is empty, but the removal of the popped site from that list was not recognised'
             else:
                 why.append('the popped site stays listed in potential_breaks')
+        unguarded_map_erase = []
         for ev in pb_map_er:
-            guarded = False
+            g_ok = False
             for cond, label, cn in gg.guards_of(ev):
                 c = strip_casts(cond)
                 if label is True and (is_call(c, '::empty') or (c.get('k') == 'bin' and c['op'] == '==' and is_call(strip_casts(c['l']), '::size'))):
-                    guarded = True
-            if pb_elem and not guarded:
-                why.append('map-level erase of the location is not guarded by an emptiness test of its site list')
-        B.check(not why, inst, 'index removed from line_info; site removed element-wise; location erased only when empty',
+                    g_ok = True
+            if not g_ok:
+                unguarded_map_erase.append(ev)
+        if pb_elem and unguarded_map_erase:
+            why.append('map-level erase of the location is not guarded by an emptiness test of its site list')
+        if cannot and not why:
+            B.unknown(inst, cannot, W(m, f, pop))
+        else:
+          B.check(not why, inst, 'index removed from line_info; site removed element-wise; location erased only when empty',
                 '; '.join(why), W(m, f, pop),
                 witness={'input': 'main: PROGRAM g IN a DO\\nx0 := include "c"\\nEND\\nPROGRAM include "c" IN a DO\\nx0 := 1\\nEND\\nx1 := 2 ; file c: h',
                          'effect': 'line_info keeps c:1 for an earlier site, potential_breaks no longer lists c:1'} if why else None)
         # the popped instruction is a POTENTIAL_BREAK (guard)
-        okg = any(label is True and 'POTENTIAL_BREAK' in show(cond) for cond, label, cn in gg.guards_of(popev))
+        def is_pb_eq(c):
+            return c.get('k') == 'bin' and c['op'] == '==' and 'POTENTIAL_BREAK' in show(c)
+
+        def is_pb_ne(c):
+            return c.get('k') == 'bin' and c['op'] == '!=' and 'POTENTIAL_BREAK' in show(c)
+        okg = guarded(gg, popev, is_pb_eq, True) or guarded(gg, popev, is_pb_ne, False)
         B.check(okg, '%s: only POTENTIAL_BREAK is popped' % f['q'], 'pop guarded by a test of the last opcode',
                 'instruction popped without checking that it is a breakpoint site', W(m, f, pop))
     # ---- c who may write
@@ -1015,18 +1081,65 @@ def c16(rep, tier):
                 gg = gg or m.cfg(f)
                 ev = gg.ev(e)
                 root, path = field_chain(e['args'][0])
-                o = m.origin(f, root) if root is not None else None
+                ctx_f, ctx_g = f, gg
+                use_ev = ev
+                # a helper that receives the record as a parameter: continue at its (single) call site
+                hops = 0
+                while root is not None and strip_casts(root).get('dk') == 'param' and hops < 3:
+                    hops += 1
+                    pidx = [i for i, p in enumerate(ctx_f['params']) if p['d'] == strip_casts(root)['d']]
+                    cs = callers_of(m, ctx_f['q'])
+                    if len(cs) != 1 or not pidx:
+                        root = None
+                        break
+                    ctx_f, call = cs[0]
+                    ctx_g = m.cfg(ctx_f)
+                    use_ev = ctx_g.ev(call)
+                    r2, p2 = field_chain(call['args'][pidx[0]])
+                    root, path = r2, p2 + path
+                o = m.origin(ctx_f, root) if root is not None else None
                 o = strip_copies(o) if o is not None else None
-                ok = path == ['ind'] and is_call(o, '::operator[]') and table_of(o['obj'])[0] == 'funcAddrs'
+                for _ in range(4):
+                    if o is not None and strip_casts(o).get('k') == 'member' and strip_casts(o).get('mk') == 'field':
+                        r3, p3 = field_chain(o)
+                        path = p3 + path
+                        o = m.origin(ctx_f, r3) if r3 is not None and strip_casts(r3).get('k') == 'ref' else r3
+                        o = strip_copies(o) if o is not None else None
+                    else:
+                        break
+                key_e = None
+                ok = False
+                if path[-1:] == ['ind'] and is_call(o, '::operator[]') and table_of(o['obj'])[0] == 'funcAddrs':
+                    ok, key_e = True, o['args'][0]
+                elif path[-2:] == ['second', 'ind'] and o is not None:
+                    # it->second.ind with it = funcAddrs.find(name)
+                    it = strip_conv(o)
+                    while it is not None and it.get('k') == 'call' and it.get('op') in ('->', '*') and it.get('obj') is not None:
+                        it = strip_conv(it['obj'])
+                    it = m.origin(ctx_f, it) if it is not None else None
+                    if is_call(it, '::find') and table_of(it['obj'])[0] == 'funcAddrs':
+                        ok, key_e = True, it['args'][0]
+                if root is None:
+                    O2.unknown('%s: Exec(%s)' % (f['q'], show(e['args'][0])), 'cannot trace the record that supplies the entry address through the helper\'s callers', W(m, f, e))
+                    continue
                 guarded = False
                 if ok:
-                    for cond, label, cn in gg.guards_of(ev):
-                        fnd = [x for x in walk_expr(cond) if is_call(x, '::find') and table_of(x['obj'])[0] == 'funcAddrs']
-                        if fnd and label is False and m.same_var(fnd[0]['args'][0], o['args'][0]):
-                            guarded = True
-                        cnt = [x for x in walk_expr(cond) if (is_call(x, '::contains') or is_call(x, '::count')) and table_of(x['obj'])[0] == 'funcAddrs']
-                        if cnt and label is True and m.same_var(cnt[0]['args'][0], o['args'][0]):
-                            guarded = True
+                    def found_pred(c):
+                        # funcAddrs.find(k) == funcAddrs.end()  (either written directly or through a local holding the iterator)
+                        if not (c.get('k') in ('call', 'bin') and c.get('op') == '=='):
+                            return False
+                        ops = ([c['obj']] if c.get('obj') is not None else []) + list(c.get('args') or []) if c.get('k') == 'call' else [c['l'], c['r']]
+                        os_ = [strip_conv(m.origin(ctx_f, x)) for x in ops]
+                        fnd = [x for x in os_ if is_call(x, '::find') and table_of(x['obj'])[0] == 'funcAddrs' and m.same_var(x['args'][0], key_e)]
+                        end = [x for x in os_ if is_call(x, '::end') and table_of(x['obj'])[0] == 'funcAddrs']
+                        return bool(fnd) and bool(end)
+                    from .genrules import guarded as _guarded
+                    guarded = _guarded(ctx_g, use_ev, found_pred, False)
+                    if not guarded:
+                        for cond, label, cn in ctx_g.guards_of(use_ev):
+                            cnt = [x for x in walk_expr(cond) if (is_call(x, '::contains') or is_call(x, '::count')) and table_of(x['obj'])[0] == 'funcAddrs']
+                            if cnt and label is True and m.same_var(cnt[0]['args'][0], key_e):
+                                guarded = True
                 O2.check(ok and guarded, '%s: Exec(%s)' % (f['q'], show(e['args'][0])), 'entry of the record found under the called name',
                          'EXEC target %s is not the entry of a successfully looked-up routine' % show(e['args'][0]), W(m, f, e))
     O3 = rep.rule('C16.O3', 'the loop counter is a private register: unnameable by users, unique per loop, initialised from the '
@@ -1195,11 +1308,25 @@ def c07(rep, tier):
                     # which construct? nearest enclosing switch case label
                     found.setdefault(f['q'], []).append(e)
     n_end = sum(len(v) for v in found.values())
-    wanted = {'P': 2, 'S': 1}
-    for q, n in wanted.items():
-        E.check(len(found.get(q, [])) >= n, '%s: END marks' % q, '%d MARK node(s) built from the END token with its own line' % len(found.get(q, [])),
-                'only %d of %d END marks are built in %s: the END line gets no site' % (len(found.get(q, [])), n, q), 'Compiler/src/parse.cpp')
-    E.check(n_end >= 3, 'END marks total', '%d' % n_end, 'expected 3 END marks (LOOP, WHILE, PROGRAM), found %d' % n_end, 'Compiler/src/parse.cpp')
+    # which constructs have their END kept?  a construct's function either builds the mark itself or calls a helper that does
+    helpers_with_mark = set(q for q in found if q not in ('P', 'S'))
+    def calls_marked_helper(q):
+        fn_ = [x for x in pf.functions_in('parse.cpp') if x['q'] == q]
+        return bool(fn_) and any(e.get('k') == 'call' and e.get('callee') in helpers_with_mark for e in walk_all_exprs(fn_[0]['body']))
+    for q, n in (('P', 2), ('S', 1)):
+        have = len(found.get(q, []))
+        if have >= n:
+            E.ok('%s: END marks' % q, '%d MARK node(s) built from the END token with its own line' % have, 'Compiler/src/parse.cpp')
+        elif calls_marked_helper(q):
+            E.unknown('%s: END marks' % q, 'the END mark is built in a helper (%s); cannot attribute it to the constructs of %s' % (sorted(helpers_with_mark), q))
+        else:
+            E.violation('%s: END marks' % q, 'only %d of %d END marks are built in %s: the END line gets no site' % (have, n, q), 'Compiler/src/parse.cpp')
+    if n_end >= 3:
+        E.ok('END marks total', '%d' % n_end, 'Compiler/src/parse.cpp')
+    elif helpers_with_mark:
+        E.unknown('END marks total', '%d END mark construction(s), some inside helpers shared by several constructs' % n_end)
+    else:
+        E.violation('END marks total', 'expected 3 END marks (LOOP, WHILE, PROGRAM), found %d' % n_end, 'Compiler/src/parse.cpp')
     F = rep.rule('C07.f', 'the stack map lists every non-temporary register by name; only variable allocation produces them', floor=3)
     pop = m.fn('GenState::popSymbols')
     okmap = False
@@ -1237,28 +1364,59 @@ def c07(rep, tier):
 CONV = ('strtol', 'std::strtol', 'strtoll', 'std::strtoll', 'std::stoi', 'std::stol', 'atoi', 'std::atoi', 'strtoul', 'std::strtoul', 'std::stoul', 'atol', 'std::stoll')
 
 
+def conversion_wrappers(facts, units_suffix):
+    """in-repo functions that just return the result of a text-to-integer conversion (possibly through another wrapper)"""
+    wr = {}
+    changed = True
+    fns = [f for f in facts.functions if any(f['file'].endswith(s) for s in units_suffix) and f['tmpl'] in ('none', 'inst')]
+    while changed:
+        changed = False
+        for f in fns:
+            key = (f['q'], f['file'])
+            if key in wr:
+                continue
+            rets = [st for st in walk_stmts(f['body']) if st['k'] == 'return' and st.get('e') is not None]
+            stmts = [st for st in walk_stmts(f['body']) if st['k'] not in ('block', 'return')]
+            if len(rets) == 1 and not stmts:
+                r = strip_casts(rets[0]['e'])
+                if r.get('k') == 'call' and ((r.get('callee') or '') in CONV or (r.get('callee'), f['file']) in wr):
+                    wr[key] = True
+                    changed = True
+    return wr
+
+
 def conversion_sites(facts, units_suffix):
     out = []
+    wr = conversion_wrappers(facts, units_suffix)
     for f in facts.functions:
         if not any(f['file'].endswith(s) for s in units_suffix) or f['tmpl'] not in ('none', 'inst'):
             continue
+        if (f['q'], f['file']) in wr:
+            continue
         for e in walk_all_exprs(f['body']):
-            if e.get('k') == 'call' and (e.get('callee') or '') in CONV:
+            if e.get('k') == 'call' and ((e.get('callee') or '') in CONV or (e.get('callee'), f['file']) in wr):
                 out.append((f, e))
     return out
 
 
-def const_int(e):
+def const_int(e, facts=None, f=None, gm=None):
     e = strip_casts(e)
     if e is None:
         return None
+    if e.get('k') == 'ref' and e.get('dk') == 'global' and facts is not None:
+        g = facts.globals.get(e.get('q'))
+        return g.get('const_value') if g else None
+    if e.get('k') == 'ref' and e.get('dk') == 'var' and gm is not None and f is not None:
+        o = gm.origin(f, e)
+        if o is not None and o is not e and o.get('k') != 'ref':
+            return const_int(o, facts, f, gm)
     if e.get('k') == 'int':
         return e['v']
     if e.get('k') == 'un' and e['op'] == '-':
-        v = const_int(e['e'])
+        v = const_int(e['e'], facts, f, gm)
         return -v if v is not None else None
     if e.get('k') == 'bin' and e['op'] in ('+', '-'):
-        a, b = const_int(e['l']), const_int(e['r'])
+        a, b = const_int(e['l'], facts, f, gm), const_int(e['r'], facts, f, gm)
         if a is None or b is None:
             return None
         return a + b if e['op'] == '+' else a - b
@@ -1283,7 +1441,9 @@ def checked_conversion(gm, f, call):
             c = strip_casts(cn.exprs[0])
             if c.get('k') == 'bin' and c['op'] in ('>=', '>'):
                 l, r = strip_casts(c['l']), strip_casts(c['r'])
-                lim = const_int(r)
+                lim = const_int(r, gm.facts, f, gm)
+                if l.get('k') == 'ref' and l.get('d') == var and lim is None:
+                    return None, 'the converted value is compared with %s, whose value is not known to the checker' % show(r)
                 if l.get('k') == 'ref' and l.get('d') == var and lim is not None:
                     bound_ok = (c['op'] == '>=' and lim <= 2147483647) or (c['op'] == '>' and lim <= 2147483646)
                     # true branch records an error
@@ -1318,6 +1478,9 @@ def c20_gen(rep, tier):
         model = mm
         ok, why = checked_conversion(model, f, call)
         inst = '%s(%s): %s' % (f['q'], os.path.basename(f['file']), show(call)[:60])
+        if ok is None:
+            A2.unknown(inst, why, '%s:%d' % (os.path.relpath(f['file'], facts.repo), call['loc'][0]))
+            continue
         if ok:
             checked_fns.add((f['q'], f['file']))
             A2.ok(inst, why, '%s:%d' % (os.path.relpath(f['file'], facts.repo), call['loc'][0]))
@@ -1338,13 +1501,17 @@ def c20_gen(rep, tier):
             if e.get('k') == 'call' and (g.is_factory(e, 'Add') or g.is_factory(e, 'LoadConstant')):
                 idx = [i for i, t in enumerate(e['pty']) if 'Constant' in t]
                 for i in idx:
-                    a = strip_casts(e['args'][i])
+                  leaves = [strip_casts(e['args'][i])]
+                  top = g.origin(f, leaves[0])
+                  if top is not None and strip_casts(top).get('k') == 'cond':
+                      leaves = [strip_casts(strip_casts(top)['t']), strip_casts(strip_casts(top)['e'])]
+                  for a in leaves:
                     neg = False
                     if a.get('k') == 'un' and a['op'] == '-':
                         neg = True
                         a = strip_casts(a['e'])
                     o = g.origin(f, a)
-                    inst = '%s: %s const %s' % (f['q'], g.callee(e).split('::')[-1], show(e['args'][i]))
+                    inst = '%s: %s const %s' % (f['q'], g.callee(e).split('::')[-1], show(a) if len(leaves) > 1 else show(e['args'][i]))
                     if o.get('k') == 'int':
                         v = -o['v'] if neg else o['v']
                         A3.check(-2147483646 <= v <= 2147483646, inst, 'literal %d' % v, 'literal out of range', W(g, f, e))
@@ -1359,7 +1526,8 @@ def c20_gen(rep, tier):
     from .symex import Symex, type_range
     conv_ranges = {}
     for f in g.all_fns():
-        if f['ret_c'] == 'int' and any(e.get('k') == 'call' and (e.get('callee') or '') in CONV for e in walk_all_exprs(f['body'])):
+        wrs = conversion_wrappers(g.facts, ('gen.cpp',))
+        if f['ret_c'] == 'int' and any(e.get('k') == 'call' and ((e.get('callee') or '') in CONV or (e.get('callee'), f['file']) in wrs) for e in walk_all_exprs(f['body'])):
             sx = Symex(g.facts)
             sx.extern_ranges = {c: (0, 2 ** 63 - 1) for c in CONV}     # INT tokens are digit strings (C14): the text converts to a non-negative value
             try:
@@ -1418,9 +1586,24 @@ def silent_exception(facts, mm, f, users):
         # get_replacement INSERTION index: extract_macros validated every INSERTION token with the checked conversion
         em = [x for x in facts.functions if x['q'] == 'Theo::extract_macros']
         if em:
+            bodies = [em[0]['body']]
+            # helpers that extract_macros calls (one or two levels) take part in the validation
+            seenq = {em[0]['q']}
+            frontier = [em[0]]
+            for _ in range(2):
+                nxt = []
+                for fn_ in frontier:
+                    for x in walk_all_exprs(fn_['body']):
+                        if x.get('k') == 'call' and x.get('callee_in_repo') and x.get('callee') not in seenq:
+                            tg = [y for y in facts.functions if y['q'] == x['callee'] and y['file'] == fn_['file'] and y['tmpl'] in ('none', 'inst')]
+                            if tg:
+                                seenq.add(x['callee'])
+                                bodies.append(tg[0]['body'])
+                                nxt.append(tg[0])
+                frontier = nxt
             ok = any(x.get('k') == 'call' and 'strToInt' in (x.get('callee') or '') and not (x.get('callee') or '').endswith('Silent')
-                     for x in walk_all_exprs(em[0]['body']))
-            ins = 'INSERTION' in ' '.join(show(x) for x in walk_all_exprs(em[0]['body']) if x.get('k') == 'bin')
+                     for b in bodies for x in walk_all_exprs(b))
+            ins = 'INSERTION' in ' '.join(show(x) for b in bodies for x in walk_all_exprs(b) if x.get('k') == 'bin')
             if ok and ins and g2['q'] == 'get_replacement':
                 return True, 'the INSERTION token text was converted and index-checked in extract_macros'
         return False, 'extract_macros no longer validates insertion tokens'
@@ -1456,29 +1639,36 @@ def advance_line_semantics(R, m, rep):
                 if ('param', pl) in sides and ('init', fs_line) in sides:
                     return ('sameline', pos)
             return None
-        known = {}
-        pending = []
-        for t, pol in p.guards:
+        def ev(t, asg):
+            """truth value of guard term t under assignment asg (dict atom->bool), or None when it involves other atoms"""
             c = classify(t)
             if c:
-                known[c[0]] = (c[1] == pol)
-            elif isinstance(t, tuple) and t[0] in ('and', 'or'):
-                pending.append((t, pol))
-        for _ in range(3):
-            for t, pol in pending:
-                parts = [classify(t[1]), classify(t[2])]
-                if None in parts:
-                    continue
-                # and: false with one conjunct known true -> the other is false ; or: true with one known false -> other true
-                for i in (0, 1):
-                    me, other = parts[i], parts[1 - i]
-                    if me[0] in known:
-                        val_me = known[me[0]] == me[1]
-                        if t[0] == 'and' and not pol and val_me:
-                            known[other[0]] = not other[1]
-                        if t[0] == 'or' and pol and not val_me:
-                            known[other[0]] = other[1]
-        hidden, samefile, sameline = known.get('hidden'), known.get('samefile'), known.get('sameline')
+                return asg[c[0]] == c[1] if c[0] in asg else None
+            if isinstance(t, tuple) and t[0] == 'not':
+                v = ev(t[1], asg)
+                return None if v is None else not v
+            if isinstance(t, tuple) and t[0] in ('and', 'or'):
+                a, b = ev(t[1], asg), ev(t[2], asg)
+                if t[0] == 'and':
+                    if a is False or b is False:
+                        return False
+                    return True if (a is True and b is True) else None
+                if a is True or b is True:
+                    return True
+                return False if (a is False and b is False) else None
+            return None
+        import itertools as _it
+        consistent = []
+        for hv, sf, sl in _it.product((True, False), repeat=3):
+            asg = {'hidden': hv, 'samefile': sf, 'sameline': sl}
+            if all(ev(t, asg) is not (not pol) for t, pol in p.guards):
+                consistent.append(asg)
+        hidden = True if consistent and all(a['hidden'] for a in consistent) else (False if consistent and not any(a['hidden'] for a in consistent) else None)
+        vis = [a for a in consistent if not a['hidden']]
+        samefile = True if vis and all(a['samefile'] for a in vis) else (False if vis and not any(a['samefile'] for a in vis) else None)
+        sameline = True if vis and all(a['sameline'] for a in vis) else (False if vis and not any(a['sameline'] for a in vis) else None)
+        all_moved = bool(vis) and all(not (a['samefile'] and a['sameline']) for a in vis)
+        none_moved = bool(vis) and all(a['samefile'] and a['sameline'] for a in vis)
         calls = [ef for ef in p.effects if ef[0] == 'call' and ef[1] == 'GenState::breakpoint']
         fn_final = p.heap.get(fs_name)
         fl_final = p.heap.get(fs_line)
@@ -1489,7 +1679,7 @@ def advance_line_semantics(R, m, rep):
             continue
         if not calls:
             n_quiet += 1
-            R.check(samefile is True and sameline is True, 'advanceLine [%s]: no site' % desc, 'no site only when neither the file nor the line changed',
+            R.check(none_moved, 'advanceLine [%s]: no site' % desc, 'no site only when neither the file nor the line changed',
                     'no site is created although %s: a statement on that line is never stopped on' % (
                         'the file may differ (the decision does not look at the file)' if samefile is None else 'the file differs' if samefile is False else 'the line differs'),
                     where, witness={'path_guards': [(t_show(t), pol) for t, pol in p.guards]})
@@ -1497,7 +1687,9 @@ def advance_line_semantics(R, m, rep):
         n_emit += 1
         okloc = (fn_final is None and samefile is True or (fn_final is not None and fn_final.term == ('param', pf))) and \
                 (fl_final is not None and fl_final.term == ('param', pl))
-        moved = samefile is False or sameline is False
+        moved = all_moved
+        okloc = (fn_final is not None and fn_final.term == ('param', pf) or (fn_final is None and samefile is True)) and \
+                (fl_final is not None and fl_final.term == ('param', pl) or (fl_final is None and sameline is True))
         R.check(len(calls) == 1 and okloc and moved, 'advanceLine [%s]: site' % desc, 'one site, created after the location became (file, line)',
                 'site created %d time(s) with location (%s, %s)%s' % (len(calls), t_show(fn_final.term) if fn_final else 'unchanged', t_show(fl_final.term) if fl_final else 'unchanged',
                                                                        '' if moved else ' although nothing moved'), where)
